@@ -5,13 +5,15 @@ CONSTANTS
  Poll = 2
  Ticks = TRUE
  Defect = "none"
- MaxTime = 4
+ MaxTime = 3
  MaxAtt = 2
  ShutTOs <- TONever
  PCancel = {1}
  Gates = {FALSE, TRUE}
  DL1 <- DL2
  DL2s <- DLN
+ W2 <- WT
+ LB2 <- LA
  W3 <- WT
  Res <- R3
 INVARIANTS Safety
